@@ -429,8 +429,19 @@ def _region_cov(op, a, b):
     return 'main'
 
 
+def _cov_keys(c):
+    fps = FPS if isinstance(c.fp, Wildcard) else c.fp
+    return {(par, co, fp, c.op): (2 if c.optional.option else 1) for par in c.parameter for co in c.covariate for fp in fps}
+
+
 def _body_cov(s1, s2, t1):
     st = (_mk_cov(s1),) + ((_mk_cov(s2),) if s2 >= 0 else ())
+    if len(st) == 2:
+        k1, k2 = _cov_keys(st[0]), _cov_keys(st[1])
+        if any(k in k2 and k2[k] != v for k, v in k1.items()):
+            # two statements of ONE space that name the same effect once as forced and once as optional: the feature
+            # language does not define their combination (outside the claim)
+            return None
     a = ModelFeatures.create(covariate=st)
     b = ModelFeatures.create(covariate=(_mk_cov(t1),))     # any operator: '+' effects never match '*' effects
     if SWAP:
